@@ -2,6 +2,7 @@
 //! cases and write one line per case (`fn<TAB>args...<TAB>impl-output`) for the Lean driver.
 mod alloc;
 mod common;
+mod c11;
 mod c19;
 mod c03;
 mod worker;
@@ -9,6 +10,7 @@ mod c01;
 mod c04;
 mod c13;
 mod c08;
+mod c09;
 mod c15;
 mod c10;
 mod c16;
@@ -41,11 +43,13 @@ fn exec(prop: &str, f: &[String]) -> Option<String> {
         "C18" => c18a::exec(f), // C18: percent-encoding + Base64 half
         "C17" => c17::exec(f),
         "C16" => c16::exec(f),
+        "C09" => c09::exec(f),
         "C10" => c10::exec(f),
         "C15" => c15::exec(f),
         "C08" => c08::exec(f),
         "C13" => c13::exec(f),
         "C19" => c19::exec(f),
+        "C11" => c11::exec(f),
         _ => None,
     }
 }
@@ -104,11 +108,13 @@ fn main() {
         "C18" => c18a::gen(&mut out, thorough, seed), // C18: percent-encoding + Base64 half
         "C17" => c17::gen(&mut out, thorough, seed),
         "C16" => c16::gen(&mut out, thorough, seed),
+        "C09" => c09::gen(&mut out, thorough, seed),
         "C10" => c10::gen(&mut out, thorough, seed),
         "C15" => c15::gen(&mut out, thorough, seed),
         "C08" => c08::gen(&mut out, thorough, seed),
         "C13" => c13::gen(&mut out, thorough, seed),
         "C19" => c19::gen(&mut out, thorough, seed),
+        "C11" => c11::gen(&mut out, thorough, seed),
         other => {
             eprintln!("unknown property {}", other);
             std::process::exit(2);
